@@ -106,7 +106,7 @@ func vb(b bool) string {
 func VerifC09Handler(h *verifh.H) {
 	lease := time.Hour
 	if !h.Symbolic() {
-		lease = 300 * time.Millisecond
+		lease = 1500 * time.Millisecond
 	}
 	hub := server.VerifOpenHub(server.VerifConfig(h, lease))
 	ds, err := hub.Dsm.CreateDataset("d", nil)
@@ -185,7 +185,7 @@ func VerifC09Handler(h *verifh.H) {
 			}
 			jobRunning = false
 		case 6: // a pending lease expires
-			if h.FireTimer("expire", 700*time.Millisecond) {
+			if h.FireTimer("expire", 2500*time.Millisecond) {
 				if m.active == 2 {
 					m.active, m.id, m.seen = 0, "", map[string]bool{}
 				}
